@@ -75,11 +75,11 @@ PROPS["C13"] = dict(
     level_note="a[i:j] on an array held in an interface is an error in the code (unaddressable) and in the model.",
 )
 PROPS["C14"] = dict(
-    level="proof", rule="string literals: every string over the escape alphabet (quotes, backslash, braces, '$', newline, tab, control, non-ASCII) up to length 3 exhaustively in the thorough tier, random beyond, in each quoting style, evaluated directly and embedded in :text / dynamic attributes with either delimiter; non-trivial = the string contains at least one rune that needs escaping or is non-ASCII; distinct = distinct case lines",
+    level="proof", allowed_axioms=FLOCQ_AXIOMS, rule="string literals: every string over the escape alphabet (quotes, backslash, braces, '$', newline, tab, control, non-ASCII) up to length 3 exhaustively in the thorough tier, random beyond, in each quoting style, evaluated directly and embedded in :text / dynamic attributes with either delimiter; non-trivial = the string contains at least one rune that needs escaping or is non-ASCII; distinct = distinct case lines",
     streams=[dict(name="strlit", family="strlit", quick=9000, thorough=150000, nontrivial=r"."),
              dict(name="strtmpl", family="strtmpl", quick=9000, thorough=150000, nontrivial=r".")],
     trusted_base=TB_EXP, modelled=MOD_EXP + ["strconv.Unquote"], assumptions=["valid UTF-8, NUL-free"],
-    level_text="Theorems: for every string s, lexing quote_dq s / quote_sq s / quote_raw s yields one string token and unquote returns s (raw: s without backquote and CR); tied to the code by evaluating the three literal forms of generated strings directly and inside ${} blocks in attributes with either delimiter.",
+    level_text="Theorems: for every string s, lexing quote_dq s / quote_sq s / quote_raw s yields one string token and unquote returns s (raw: s without backquote and CR); END TO END (Proofs/EndToEnd.v): for every s without the attribute's delimiter the source <p :text=D${LIT}D>x</p> loads and renders to <p>escape(s)</p> through the composed models of HTML scanner, code scanner, lexer, parser, literal decoder, tree builder, evaluator and renderer (these statements mention the evaluator, hence the standard-library axioms Flocq brings); tied to the code by evaluating the three literal forms of generated strings directly and inside ${} blocks in attributes with either delimiter.",
     level_note="Byte escapes >= 0x80 (\\xff) produce invalid UTF-8 and are UNMODELLED.",
 )
 
